@@ -231,6 +231,10 @@ func resemblesJSONArray(input []byte) bool {
 // JSON documents.
 // The merge patch returned follows the specification defined at http://tools.ietf.org/html/draft-ietf-appsawg-json-merge-patch-07
 func CreateMergePatch(originalJSON, modifiedJSON []byte) ([]byte, error) {
+	if !json.Valid(originalJSON) || !json.Valid(modifiedJSON) {
+		return nil, ErrBadJSONDoc
+	}
+
 	originalResemblesArray := resemblesJSONArray(originalJSON)
 	modifiedResemblesArray := resemblesJSONArray(modifiedJSON)
 
